@@ -1213,12 +1213,14 @@ Section M7.
     (exists f, fld (zs "isFormula") c = Ok f) /\ rec_hashable c = Ok tt.
   Proof.
     intros c H. unfold colp, col_pre7 in H. split_pre H.
-    destruct (fld (zs "parentId") c) as [p|]; [|discriminate]. apply andb_prop in H. destruct H as [Hh Ht].
-    destruct (pd_get p (tables_by_id s)) as [t|]; [|discriminate].
-    destruct (fld (zs "tableId") t) as [n|] eqn:En; [|discriminate]. destruct n; try discriminate.
-    destruct (fld (zs "colId") c) as [ci|]; [|discriminate]. destruct ci; try discriminate.
-    destruct (fld (zs "formula") c); [|discriminate]. destruct (fld (zs "isFormula") c); [|discriminate].
-    repeat split; eauto 10. unfold rec_hashable. rewrite P. reflexivity.
+    destruct (fld (zs "parentId") c) as [p|]; [|discriminate H]. apply andb_prop in H. destruct H as [Hh Ht].
+    destruct (pd_get p (tables_by_id s)) as [t|] eqn:Eg; [|discriminate Ht].
+    destruct (fld (zs "tableId") t) as [n|] eqn:En; [|discriminate Ht]. destruct n; try discriminate Ht.
+    destruct (fld (zs "colId") c) as [ci|]; [|discriminate P2]. destruct ci; try discriminate P2.
+    destruct (fld (zs "formula") c) as [fo|]; [|discriminate P1]. destruct (fld (zs "isFormula") c) as [isf|]; [|discriminate P0].
+    split; [exists p; split; [reflexivity|split; [exact Hh|exists t, s0; split; [exact Eg|exact En]]]|].
+    split; [eexists; reflexivity|]. split; [eexists; reflexivity|]. split; [eexists; reflexivity|].
+    unfold rec_hashable. rewrite P. reflexivity.
   Qed.
 
   Lemma colp_all_eq : forall c conds, colp c ->
@@ -1230,3 +1232,172 @@ Section M7.
     destruct Hin as [<-|[<-|[<-|[]]]]; eauto.
   Qed.
 End M7.
+
+Section M7b.
+  Variable summary_match : str -> option (str * str).
+  Variable pick_table : str -> list str -> str.
+  Variable s : tds.
+
+  Lemma groupby_ok : forall by_tc t refs gb sc,
+    Forall (fun kv => colp s (snd kv)) by_tc ->
+    Forall (fun z => exists c n, pd_get (VInt z) (cols_by_id s) = Some c /\ fld (zs "colId") c = Ok (VStr n)) refs ->
+    exists r, m7_groupby (cols_by_id s) by_tc t refs gb sc = Ok r.
+  Proof.
+    intros by_tc t refs. induction refs as [|z refs IH]; intros gb sc Htc Hr; cbn [m7_groupby]; [eauto|].
+    inversion Hr as [|? ? [c [n [Hc Hn]]] Hrest]; subst. rewrite Hc, Hn. cbn [bind hash_key hashable].
+    destruct (pd_get (VList [rid_val (fst t); VStr n]) by_tc) as [sum_col|] eqn:G; [|apply IH; assumption].
+    pose proof (pd_get_forall (colp s) _ by_tc sum_col Htc G) as Hp.
+    destruct (colp_fields s sum_col Hp) as [_ [_ [_ [_ Hh]]]]. rewrite Hh. cbn [bind]. apply IH; assumption.
+  Qed.
+
+  Lemma rm2_ok : forall t gb c, colp s c -> exists b, m7_rm2 t gb c = Ok b.
+  Proof.
+    intros t gb c Hc. unfold m7_rm2.
+    destruct (colp_all_eq s c [(zs "parentId", rid_val (fst t))] Hc) as [own ->]; [repeat (apply Forall_cons; [cbn [In fst]; auto 7|]); apply Forall_nil|].
+    cbn [bind]. destruct (negb own); [eauto|].
+    destruct (colp_fields s c Hc) as [_ [_ [_ [[f Hf] Hh]]]]. rewrite Hh. cbn [bind].
+    destruct (existsb (rec_eqb c) gb); [eauto|]. rewrite Hf. cbn [bind]. eauto.
+  Qed.
+
+  Definition inv7 (st : m7_state) : Prop :=
+    Forall (fun v => is_text v = true) (s7_names st) /\ Forall (colp s) (s7_remove st) /\
+    Forall (fun f : record * str * str => colp s (fst (fst f))) (s7_formulas st) /\
+    Forall (fun tr : record * str => exists n, fld (zs "tableId") (fst tr) = Ok (VStr n)) (s7_renames st).
+
+  Lemma as_str_names : forall names, Forall (fun v => is_text v = true) names -> exists l, mapM (as_str AttrErr) names = Ok l.
+  Proof.
+    intros names H. destruct (mapM_ok (as_str AttrErr) names) as [l [E _]]; [|eauto].
+    eapply Forall_impl; [|exact H]. cbn beta. intros v Hv. destruct v; try discriminate. cbn. eauto.
+  Qed.
+
+  Lemma incl_forall : forall {A} (P : A -> Prop) l l', incl l l' -> Forall P l' -> Forall P l.
+  Proof. intros A P l l' I H. rewrite Forall_forall in *. intros x Hx. apply H, I, Hx. Qed.
+
+  Lemma m7_table_ok : forall by_tc st t,
+    Forall (colp s) (recs T_COLUMNS s) -> Forall (fun kv => colp s (snd kv)) by_tc ->
+    table_pre7 summary_match s t = true -> inv7 st ->
+    exists st', m7_table summary_match pick_table (name_to_ref_of s) (recs T_COLUMNS s) (cols_by_id s) by_tc st t = Ok st' /\
+                inv7 st'.
+  Proof.
+    intros by_tc st t Hcols Htc Hpre [Hn [Hrm [Hfu Hre]]]. unfold table_pre7 in Hpre. unfold m7_table.
+    destruct (fld (zs "tableId") t) as [tid|] eqn:Et; [|discriminate]. destruct tid; try discriminate. cbn [bind as_str].
+    destruct (summary_match s0) as [[g1 g2]|]; [|exists st; split; [reflexivity|repeat split; assumption]].
+    destruct (pd_get (VStr g1) (name_to_ref_of s)) as [src_ref|]; [|exists st; split; [reflexivity|repeat split; assumption]].
+    destruct (parse_refs g2) as [refs|]; [|discriminate]. cbn [bind].
+    rewrite forallb_forall in Hpre.
+    assert (Hrefs : Forall (fun z => exists c n, pd_get (VInt z) (cols_by_id s) = Some c /\ fld (zs "colId") c = Ok (VStr n)) refs).
+    { apply Forall_forall. intros z Hz. specialize (Hpre z Hz).
+      destruct (pd_get (VInt z) (cols_by_id s)) as [c|]; [|discriminate].
+      destruct (fld (zs "colId") c) as [ci|] eqn:Ec; [|discriminate]. destruct ci; try discriminate. eauto. }
+    destruct (mapM_ok (fun z => match pd_get (VInt z) (cols_by_id s) with
+                                | Some c => bind (fld (zs "colId") c) (as_str TypeErr)
+                                | None => Err KeyErr end) refs) as [ids [-> _]].
+    { eapply Forall_impl; [|exact Hrefs]. cbn beta. intros z [c [n [-> ->]]]. cbn. eauto. }
+    cbn [bind]. destruct (as_str_names _ Hn) as [avoid ->]. cbn [bind].
+    destruct (filterM_ok (fun c => all_eq c [(zs "parentId", rid_val src_ref); (zs "colId", VStr s0)]) (recs T_COLUMNS s))
+      as [rm1 [-> I1]].
+    { eapply Forall_impl; [|exact Hcols]. cbn beta. intros c Hc. apply (colp_all_eq s c); [exact Hc|repeat (apply Forall_cons; [cbn [In fst]; auto 7|]); apply Forall_nil]. }
+    cbn [bind].
+    match goal with |- context [filterM ?f (recs T_COLUMNS s)] => destruct (filterM_ok f (recs T_COLUMNS s)) as [fu [-> I2]] end.
+    { eapply Forall_impl; [|exact Hcols]. cbn beta. intros c Hc. apply (colp_all_eq s c); [exact Hc|repeat (apply Forall_cons; [cbn [In fst]; auto 7|]); apply Forall_nil]. }
+    cbn [bind]. destruct (groupby_ok by_tc t refs [] [] Htc Hrefs) as [[gb sc] ->]. cbn [bind].
+    destruct (filterM_ok (m7_rm2 t gb) (recs T_COLUMNS s)) as [rm2 [-> I3]].
+    { eapply Forall_impl; [|exact Hcols]. cbn beta. intros c Hc. apply rm2_ok. exact Hc. }
+    cbn [bind]. eexists. split; [reflexivity|]. unfold inv7. cbn [s7_names s7_remove s7_formulas s7_renames].
+    split; [apply Forall_app; split; [exact Hn|repeat constructor]|].
+    split; [apply Forall_app; split; [exact Hrm|apply Forall_app; split; eapply incl_forall; eassumption]|].
+    split; [apply Forall_app; split; [exact Hfu|]|apply Forall_app; split; [exact Hre|repeat constructor; cbn; eauto]].
+    apply Forall_forall. intros f Hf. apply in_map_iff in Hf. destruct Hf as [c [<- Hc]]. cbn [fst].
+    rewrite Forall_forall in Hcols. apply Hcols, I2, Hc.
+  Qed.
+
+  Lemma m7_loop_ok : forall by_tc ts st,
+    Forall (colp s) (recs T_COLUMNS s) -> Forall (fun kv => colp s (snd kv)) by_tc ->
+    Forall (fun t => table_pre7 summary_match s t = true) ts -> inv7 st ->
+    exists st', m7_loop summary_match pick_table (name_to_ref_of s) (recs T_COLUMNS s) (cols_by_id s) by_tc ts st = Ok st' /\ inv7 st'.
+  Proof.
+    intros by_tc ts. induction ts as [|t ts IH]; intros st Hc Htc Hts Hinv; cbn [m7_loop]; [eauto|].
+    inversion Hts; subst. destruct (m7_table_ok by_tc st t Hc Htc) as [st1 [-> Hinv1]]; auto. cbn [bind]. apply IH; auto.
+  Qed.
+End M7b.
+
+Section M7c.
+  Variable summary_match : str -> option (str * str).
+  Variable pick_table : str -> list str -> str.
+  Variable s : tds.
+
+  Lemma pair_index_rec_ok : forall rs, Forall (colp s) rs ->
+    exists by_tc, pair_index_rec rs = Ok by_tc /\ Forall (fun kv => colp s (snd kv)) by_tc.
+  Proof.
+    intros rs H. unfold pair_index_rec.
+    match goal with |- exists b, ?G rs [] = Ok b /\ _ =>
+      assert (A : forall l acc, Forall (colp s) l -> Forall (fun kv => colp s (snd kv)) acc ->
+                  exists b, G l acc = Ok b /\ Forall (fun kv => colp s (snd kv)) b) end.
+    { induction l as [|r l IH]; intros acc Hl Hacc; [eauto|].
+      inversion Hl as [|? ? Hr Hrest]; subst.
+      destruct (colp_fields s r Hr) as [[p [Hp [Hh _]]] [[n Hn] _]].
+      unfold pair_key. rewrite Hp. cbn [bind]. unfold hash_key. rewrite Hh. cbn [bind]. rewrite Hn. cbn [bind hashable].
+      apply IH; [exact Hrest|]. apply pd_set_forall; assumption. }
+    apply A; [exact H|constructor].
+  Qed.
+
+  Lemma table_pre7_tableId : forall t, table_pre7 summary_match s t = true -> exists n, fld (zs "tableId") t = Ok (VStr n).
+  Proof.
+    intros t H. unfold table_pre7 in H. destruct (fld (zs "tableId") t) as [v|]; [|discriminate]. destruct v; try discriminate. eauto.
+  Qed.
+
+  Theorem m7_body_total : pre7 summary_match s = true -> exists acts, m7 summary_match pick_table s = Ok acts.
+  Proof.
+    intros H. unfold pre7 in H. split_pre H.
+    pose proof (has_table_b_sound _ _ H) as Ht. pose proof (has_table_b_sound _ _ P1) as Hc.
+    assert (Hcols : Forall (colp s) (recs T_COLUMNS s)).
+    { apply Forall_forall. intros c Hin. rewrite forallb_forall in P. apply P. exact Hin. }
+    assert (Htabs : Forall (fun t => table_pre7 summary_match s t = true) (recs T_TABLES s)).
+    { apply Forall_forall. intros t Hin. rewrite forallb_forall in P0. apply P0. exact Hin. }
+    assert (Htv : Forall (fun kv => table_pre7 summary_match s (snd kv) = true) (tables_by_id s)).
+    { unfold tables_by_id. apply (by_id_forall (fun t => table_pre7 summary_match s t = true)); [exact Htabs|constructor]. }
+    unfold m7, has_col. destruct Ht as [td1 Ht1]. destruct Hc as [td2 Hc2]. rewrite Ht1, Hc2. cbn [bind].
+    rewrite (table_records_ok T_TABLES s (ex_intro _ td1 Ht1)). cbn [bind]. cbv zeta.
+    fold (tables_by_id s).
+    destruct (index_by_ok (fld (zs "tableId")) (fun t : record => fst t) (map snd (tables_by_id s)) []) as [n2r En].
+    { apply Forall_forall. intros t Hin. apply in_map_iff in Hin. destruct Hin as [kv [<- Hkv]].
+      rewrite Forall_forall in Htv. destruct (table_pre7_tableId _ (Htv kv Hkv)) as [n Hn]. exists (VStr n). split; [exact Hn|reflexivity]. }
+    rewrite En. cbn [bind].
+    assert (Hn2r : name_to_ref_of s = n2r) by (unfold name_to_ref_of; rewrite En; reflexivity).
+    rewrite (table_records_ok T_COLUMNS s (ex_intro _ td2 Hc2)). cbn [bind]. cbv zeta.
+    fold (cols_by_id s).
+    destruct (pair_index_rec_ok _ Hcols) as [by_tc [-> Htc]]. cbn [bind].
+    rewrite <- Hn2r.
+    destruct (m7_loop_ok summary_match pick_table s by_tc (map snd (tables_by_id s))
+                (mk7 (map fst (name_to_ref_of s)) [] [] [] [] [])) as [st [-> [_ [Hrm [Hfu Hre]]]]]; auto.
+    { apply Forall_forall. intros t Hin. apply in_map_iff in Hin. destruct Hin as [kv [<- Hkv]].
+      rewrite Forall_forall in Htv. exact (Htv kv Hkv). }
+    { unfold inv7. cbn [s7_names s7_remove s7_formulas s7_renames]. repeat split; try constructor.
+      (* the initial name set: the keys of name_to_ref are the tableId cells, all strings *)
+      rewrite Hn2r. clear -En Htv.
+      assert (G : forall l acc m, index_by (fld (zs "tableId")) (fun t : record => fst t) l acc = Ok m ->
+                  Forall (fun t => exists n, fld (zs "tableId") t = Ok (VStr n)) l ->
+                  Forall (fun kv : val * rid => is_text (fst kv) = true) acc -> Forall (fun kv : val * rid => is_text (fst kv) = true) m).
+      { induction l as [|t l IH]; intros acc m E Hl Hacc; cbn in E; [injection E as <-; exact Hacc|].
+        inversion Hl as [|? ? [n Hn] Hrest]; subst. rewrite Hn in E. cbn in E. eapply IH; [exact E|exact Hrest|].
+        clear -Hacc. induction Hacc as [|[k v] acc Hk Ha IH]; cbn; [repeat constructor|].
+        destruct (py_eq (VStr n) k); constructor; auto. }
+      apply (proj1 (Forall_map fst (fun v => is_text v = true) n2r)).
+      eapply G; [exact En| |constructor].
+      apply Forall_forall. intros t Hin. apply in_map_iff in Hin. destruct Hin as [kv [<- Hkv]].
+      rewrite Forall_forall in Htv. exact (table_pre7_tableId _ (Htv kv Hkv)). }
+    cbn [bind].
+    match goal with |- context [mapM ?f (s7_remove st)] => destruct (mapM_ok f (s7_remove st)) as [removes [-> _]] end.
+    { eapply Forall_impl; [|exact Hrm]. cbn beta. intros c Hp.
+      destruct (colp_fields s c Hp) as [[p [Hp1 [Hh [t [n [Hg Hn]]]]]] [[cn Hcn] _]].
+      rewrite Hp1. cbn [bind]. unfold hash_key. rewrite Hh. cbn [bind]. rewrite Hg, Hn. cbn [bind as_str]. rewrite Hcn. cbn. eauto. }
+    cbn [bind].
+    match goal with |- context [mapM ?f (s7_renames st)] => destruct (mapM_ok f (s7_renames st)) as [renames [-> _]] end.
+    { eapply Forall_impl; [|exact Hre]. cbn beta. intros tr [n Hn]. rewrite Hn. cbn. eauto. }
+    cbn [bind].
+    match goal with |- context [mapM ?f (s7_formulas st)] => destruct (mapM_ok f (s7_formulas st)) as [mods [-> _]] end.
+    { eapply Forall_impl; [|exact Hfu]. cbn beta. intros f Hp.
+      destruct (colp_fields s _ Hp) as [_ [[cn Hcn] _]]. rewrite Hcn. cbn. eauto. }
+    cbn [bind]. eauto.
+  Qed.
+End M7c.
